@@ -1,1 +1,701 @@
+(** C24 - proofs about the generic wire model (Model/Wire.v). *)
 From ZV Require Import Lib.Base Lib.WireTypes Model.Wire.
+From Coq Require Import String ZifyBool.
+
+(* ---------------------------------------------------------------- induction over [val] *)
+
+Section ValInd.
+  Variable P : val -> Prop.
+  Hypothesis HB : forall b, P (VB b).
+  Hypothesis HZ : forall z, P (VZ z).
+  Hypothesis HS : forall s, P (VS s).
+  Hypothesis HT : forall s n, P (VTime s n).
+  Hypothesis HN : P VNil.
+  Hypothesis HL : forall l, Forall P l -> P (VL l).
+  Hypothesis HM : forall kvs, Forall (fun kv => P (snd kv)) kvs -> P (VM kvs).
+  Hypothesis HR : forall fs, Forall (fun kv => P (snd kv)) fs -> P (VR fs).
+  Hypothesis HQ : forall k x, P x -> P (VQ k x).
+
+  Fixpoint val_ind2 (v : val) : P v :=
+    match v with
+    | VB b => HB b
+    | VZ z => HZ z
+    | VS s => HS s
+    | VTime s n => HT s n
+    | VNil => HN
+    | VL l => HL l ((fix go (l : list val) : Forall P l :=
+                       match l with [] => Forall_nil _ | x :: r => Forall_cons _ (val_ind2 x) (go r) end) l)
+    | VM kvs => HM kvs ((fix go (l : list (val * val)) : Forall (fun kv => P (snd kv)) l :=
+                           match l with
+                           | [] => Forall_nil _
+                           | (k, x) :: r => Forall_cons (k, x) (val_ind2 x) (go r)
+                           end) kvs)
+    | VR fs => HR fs ((fix go (l : list (string * val)) : Forall (fun kv => P (snd kv)) l :=
+                         match l with
+                         | [] => Forall_nil _
+                         | (k, x) :: r => Forall_cons (k, x) (val_ind2 x) (go r)
+                         end) fs)
+    | VQ k x => HQ k x (val_ind2 x)
+    end.
+End ValInd.
+
+(* ---------------------------------------------------------------- helpers *)
+
+Lemma lookup_with_spec : forall {A B} (f : A -> B) d k fs,
+  lookup_with f d k fs = match lookup k fs with Some x => f x | None => d end.
+Proof.
+  intros A B f d k fs. induction fs as [|[k' x] r IH]; simpl; [reflexivity|].
+  destruct (String.eqb k k'); [reflexivity|exact IH].
+Qed.
+
+Lemma lookup_In : forall {A} k (fs : list (string * A)) x, lookup k fs = Some x -> In (k, x) fs.
+Proof.
+  intros A k fs x. induction fs as [|[k' y] r IH]; simpl; [discriminate|].
+  destruct (String.eqb k k') eqn:Ek.
+  - intros H. inversion H. subst. apply String.eqb_eq in Ek. subst. left. reflexivity.
+  - intros H. right. exact (IH H).
+Qed.
+
+Lemma omap_cons : forall {A B} (f : A -> outcome B) x r,
+  omap f (x :: r) = (do y <- f x; do ys <- omap f r; Ok (y :: ys)).
+Proof. reflexivity. Qed.
+
+Lemma omap_ok_ex : forall {A B} (f : A -> outcome B) (R : A -> B -> Prop) l,
+  (forall x, In x l -> exists y, f x = Ok y /\ R x y) ->
+  exists ys, omap f l = Ok ys /\ Forall2 R l ys.
+Proof.
+  intros A B f R l. induction l as [|x r IH]; intros H.
+  - exists []. split; [reflexivity|constructor].
+  - destruct (H x (or_introl eq_refl)) as [y [Hy Ry]].
+    destruct IH as [ys [Hys Rys]]. { intros z Hz. apply H. right. exact Hz. }
+    exists (y :: ys). split.
+    + rewrite omap_cons, Hy. simpl. rewrite Hys. reflexivity.
+    + constructor; assumption.
+Qed.
+
+Lemma omap_ok_map : forall {A B} (f : A -> outcome B) (g : A -> B) l,
+  (forall x, In x l -> f x = Ok (g x)) -> omap f l = Ok (map g l).
+Proof.
+  intros A B f g l. induction l as [|x r IH]; intros H; [reflexivity|].
+  rewrite omap_cons, (H x (or_introl eq_refl)). simpl.
+  rewrite IH; [reflexivity|]. intros z Hz. apply H. right. exact Hz.
+Qed.
+
+Lemma mem_In : forall s l, mem s l = true <-> In s l.
+Proof.
+  intros s l. induction l as [|x r IH]; simpl; [split; [discriminate|tauto]|].
+  rewrite orb_true_iff, IH, String.eqb_eq. split; intros [H|H]; auto.
+Qed.
+
+Lemma nodup_str_NoDup : forall l, nodup_str l = true -> NoDup l.
+Proof.
+  induction l as [|x r IH]; simpl; intros H; [constructor|].
+  apply andb_true_iff in H. destruct H as [H1 H2]. constructor; [|exact (IH H2)].
+  intros Hin. apply mem_In in Hin. rewrite Hin in H1. discriminate.
+Qed.
+
+Lemma find_row_In : forall d rows r, find_row d rows = Some r -> In r rows /\ r_dst r = d.
+Proof.
+  intros d rows r. induction rows as [|r0 rest IH]; simpl; [discriminate|].
+  destruct (String.eqb d (r_dst r0)) eqn:Ed.
+  - intros H. inversion H. subst. apply String.eqb_eq in Ed. split; [left; reflexivity|symmetry; exact Ed].
+  - intros H. destruct (IH H) as [H1 H2]. split; [right; exact H1|exact H2].
+Qed.
+
+Lemma find_row_nodup : forall rows r, NoDup (map r_dst rows) -> In r rows -> find_row (r_dst r) rows = Some r.
+Proof.
+  induction rows as [|r0 rest IH]; simpl; intros r Hnd Hin; [contradiction|].
+  inversion Hnd as [|? ? Hnot Hnd']. subst.
+  destruct Hin as [Heq|Hin].
+  - subst. rewrite String.eqb_refl. reflexivity.
+  - destruct (String.eqb (r_dst r) (r_dst r0)) eqn:Ed.
+    + apply String.eqb_eq in Ed. exfalso. apply Hnot. rewrite <- Ed. apply in_map. exact Hin.
+    + apply IH; assumption.
+Qed.
+
+Lemma lookup_tables_In : forall {A} n (l : list (string * A)) t, lookup n l = Some t -> In (n, t) l.
+Proof. intros. apply lookup_In. assumption. Qed.
+
+(* ---------------------------------------------------------------- scalars *)
+
+Lemma wrap_id : forall t z, in_ity t z = true -> wrap t z = z.
+Proof.
+  intros t z H. unfold in_ity in H. apply andb_true_iff in H. destruct H as [H1 H2].
+  apply Z.leb_le in H1. apply Z.leb_le in H2. unfold wrap.
+  rewrite Z.mod_small; [lia|]. destruct t; simpl in *; lia.
+Qed.
+
+Lemma ity_sub_in : forall a b z, ity_sub a b = true -> in_ity a z = true -> in_ity b z = true.
+Proof.
+  intros a b z Hs Hi. unfold ity_sub, in_ity in *.
+  apply andb_true_iff in Hs. apply andb_true_iff in Hi. destruct Hs as [S1 S2]. destruct Hi as [I1 I2].
+  apply Z.leb_le in S1, S2, I1, I2. apply andb_true_iff. split; apply Z.leb_le; lia.
+Qed.
+
+Lemma ity_eqb_eq : forall a b, ity_eqb a b = true -> a = b.
+Proof. destruct a, b; simpl; intros H; try discriminate; reflexivity. Qed.
+
+Lemma dur_roundtrip : forall d, in_ity I64 d = true -> dur_from (Z.quot d e9) (Z.rem d e9) = d.
+Proof.
+  intros d H. unfold in_ity in H. apply andb_true_iff in H. destruct H as [H1 H2].
+  apply Z.leb_le in H1. apply Z.leb_le in H2. simpl in H1, H2.
+  assert (He9 : e9 = 1000000000%Z) by reflexivity.
+  pose proof (Z.quot_rem' d e9) as Hqr.
+  assert (Hrb : (Z.abs (Z.rem d e9) < e9)%Z).
+  { pose proof (Z.rem_bound_abs d e9). rewrite He9 in *. lia. }
+  assert (Hsgn : (0 <= Z.rem d e9 * d)%Z).
+  { destruct (Z.eq_dec d 0) as [->|Hd]; [rewrite Z.rem_0_l by (rewrite He9; lia); lia|].
+    pose proof (Z.rem_sign_mul d e9). rewrite He9 in *. lia. }
+  set (q := Z.quot d e9) in *. set (r := Z.rem d e9) in *.
+  assert (Hq : (Z.abs (q * e9) <= Z.abs d)%Z).
+  { rewrite He9 in *. nia. }
+  unfold dur_from.
+  assert (Hw1 : wrap I64 (q * e9) = (q * e9)%Z).
+  { apply wrap_id. unfold in_ity. simpl. apply andb_true_iff. split; apply Z.leb_le; rewrite He9 in *; lia. }
+  rewrite Hw1.
+  assert (Hqq : Z.quot (q * e9) e9 = q). { apply Z.quot_mul. rewrite He9. lia. }
+  rewrite Hqq, Z.eqb_refl. simpl negb.
+  assert (Hd : (q * e9 + r = d)%Z) by lia.
+  rewrite Hd.
+  assert (Hw2 : wrap I64 d = d).
+  { apply wrap_id. unfold in_ity. simpl. apply andb_true_iff. split; apply Z.leb_le; lia. }
+  rewrite Hw2.
+  assert (O2 : ((q <? 0) && (r <? 0) && (0 <? d))%Z = false).
+  { destruct (q <? 0)%Z eqn:A; [|reflexivity]. destruct (r <? 0)%Z eqn:B; [|reflexivity].
+    destruct (0 <? d)%Z eqn:C; [|reflexivity]. apply Z.ltb_lt in A, B, C. rewrite He9 in *. nia. }
+  assert (O3 : ((0 <? q) && (0 <? r) && (d <? 0))%Z = false).
+  { destruct (0 <? q)%Z eqn:A; [|reflexivity]. destruct (0 <? r)%Z eqn:B; [|reflexivity].
+    destruct (d <? 0)%Z eqn:C; [|reflexivity]. apply Z.ltb_lt in A, B, C. rewrite He9 in *. nia. }
+  rewrite O2, O3. reflexivity.
+Qed.
+
+Lemma time_roundtrip : forall s n, (0 <=? n)%Z && (n <? e9)%Z = true ->
+  time_from s (wrap I32 n) = VTime s n.
+Proof.
+  intros s n H. apply andb_true_iff in H. destruct H as [H1 H2].
+  apply Z.leb_le in H1. apply Z.ltb_lt in H2. assert (He9 : e9 = 1000000000%Z) by reflexivity.
+  rewrite wrap_id.
+  - unfold time_from. rewrite Z.div_small, Z.mod_small by (rewrite He9 in *; lia). f_equal. lia.
+  - unfold in_ity. simpl. apply andb_true_iff. rewrite He9 in *. split; apply Z.leb_le; lia.
+Qed.
+
+Lemma set_insert_lt : forall x y r, vs_cmp x y = Lt -> set_insert x (y :: r) = x :: y :: r.
+Proof. intros x y r H. simpl. rewrite H. reflexivity. Qed.
+
+Lemma set_of_list_sorted : forall l, strictly_sorted l = true -> set_of_list l = l.
+Proof.
+  induction l as [|x r IH]; [reflexivity|].
+  intros H. simpl in H. apply andb_true_iff in H. destruct H as [H Hr].
+  apply andb_true_iff in H. destruct H as [_ Hxy].
+  unfold set_of_list in *. simpl. rewrite (IH Hr).
+  destruct r as [|y r']; [reflexivity|].
+  destruct (vs_cmp x y) eqn:C; try discriminate. apply set_insert_lt. exact C.
+Qed.
+
+Lemma forallb_In : forall {A} (f : A -> bool) l x, forallb f l = true -> In x l -> f x = true.
+Proof. intros A f l x H Hin. rewrite forallb_forall in H. apply H. exact Hin. Qed.
+
+Lemma enum_roundtrip : forall ps d qs e z,
+  forallb (fun z => (enum_map qs e (enum_map ps d z) =? z)%Z) (0%Z :: map fst ps) = true ->
+  (z =? 0)%Z || existsb (fun p => (fst p =? z)%Z) ps = true ->
+  enum_map qs e (enum_map ps d z) = z.
+Proof.
+  intros ps d qs e z Hall Hz. apply Z.eqb_eq. apply (forallb_In _ _ z Hall).
+  apply orb_true_iff in Hz. destruct Hz as [Hz|Hz].
+  - apply Z.eqb_eq in Hz. subst. left. reflexivity.
+  - right. apply existsb_exists in Hz. destruct Hz as [p [Hp Hpz]]. apply Z.eqb_eq in Hpz. subst.
+    apply in_map. exact Hp.
+Qed.
+
+Lemma flags_roundtrip : forall ps qs z,
+  forallb (fun z => match flags_from qs (flags_to ps z) with Ok z' => (z' =? z)%Z | _ => false end)
+          (zsubsets_or (map fst ps)) = true ->
+  masks_only ps z = true ->
+  flags_from qs (flags_to ps z) = Ok z.
+Proof.
+  intros ps qs z Hall Hz. unfold masks_only in Hz. apply existsb_exists in Hz.
+  destruct Hz as [s [Hs Hsz]]. apply Z.eqb_eq in Hsz. subst s.
+  pose proof (forallb_In _ _ z Hall Hs) as H. simpl in H.
+  destruct (flags_from qs (flags_to ps z)) as [z'| |]; try discriminate.
+  apply Z.eqb_eq in H. subst. reflexivity.
+Qed.
+
+(* ---------------------------------------------------------------- records *)
+
+Definition row_apply (E : env) (fs : list (string * val)) (r : row) : outcome (string * val) :=
+  match r_src r with
+  | None => Ok (r_dst r, r_zero r)
+  | Some (g, c') => do y <- lookup_with (fun x => apply E c' x) (Err ERR_SHAPE) g fs; Ok (r_dst r, y)
+  end.
+
+Lemma apply_rec_VR : forall E to nl n fs,
+  apply E (CRec to nl n) (VR fs) =
+  match rows_of E to n with
+  | None => Err ERR_SHAPE
+  | Some rows => do fs' <- omap (row_apply E fs) rows; Ok (VR fs')
+  end.
+Proof. reflexivity. Qed.
+
+Lemma apply_rec_VNil_nilable : forall E to n t,
+  lookup n (e_tables E) = Some t -> apply E (CRec to true n) VNil = Ok VNil.
+Proof. intros E to n t H. simpl. unfold rows_of. rewrite H. reflexivity. Qed.
+
+(** the round-trip statement for one value, for every admissible conversion pair *)
+Definition RT (E : env) (v : val) : Prop :=
+  forall ct cf, inv_ok E ct cf = true -> dom_b E ct cf v = true ->
+    exists w, apply E ct v = Ok w /\ apply E cf w = Ok v.
+
+Definition Rto (E : env) (fs : list (string * val)) (tr : row) (kv : string * val) : Prop :=
+  fst kv = r_dst tr /\
+  match r_src tr with
+  | None => True
+  | Some (g, ct) => exists x, lookup g fs = Some x /\ apply E ct x = Ok (snd kv)
+  end.
+
+Lemma Forall2_find_lookup : forall E fs rows fs' p tr,
+  Forall2 (Rto E fs) rows fs' -> find_row p rows = Some tr ->
+  exists y, lookup p fs' = Some y /\ Rto E fs tr (p, y).
+Proof.
+  intros E fs rows fs' p tr H. induction H as [|tr0 [k y0] rows' fs'' Hh Ht IH]; simpl; [discriminate|].
+  destruct Hh as [Hk Hsrc]. simpl in Hk. subst k.
+  destruct (String.eqb p (r_dst tr0)) eqn:Ep.
+  - intros Heq. inversion Heq. subst tr0. exists y0. split; [reflexivity|].
+    apply String.eqb_eq in Ep. split; [exact Ep|exact Hsrc].
+  - exact IH.
+Qed.
+
+Lemma lookup_nodup : forall {A} (fs : list (string * A)) k x,
+  NoDup (map fst fs) -> In (k, x) fs -> lookup k fs = Some x.
+Proof.
+  induction fs as [|[k0 x0] r IH]; simpl; intros k x Hnd Hin; [contradiction|].
+  inversion Hnd as [|? ? Hnot Hnd']. subst.
+  destruct Hin as [Heq|Hin].
+  - inversion Heq. subst. rewrite String.eqb_refl. reflexivity.
+  - destruct (String.eqb k k0) eqn:Ek.
+    + apply String.eqb_eq in Ek. subst. exfalso. apply Hnot.
+      change k0 with (fst (k0, x)). apply in_map. exact Hin.
+    + apply IH; assumption.
+Qed.
+
+Lemma list_eqb_str_eq : forall a b, list_eqb String.eqb a b = true -> a = b.
+Proof.
+  induction a as [|x a IH]; destruct b as [|y b]; simpl; intros H; try discriminate; [reflexivity|].
+  apply andb_true_iff in H. destruct H as [H1 H2]. apply String.eqb_eq in H1. subst. f_equal. apply IH. exact H2.
+Qed.
+
+Definition back_field (ex : list string) (fs : list (string * val)) (r : row) : string * val :=
+  (r_dst r, if mem (r_dst r) ex then r_zero r
+            else match lookup (r_dst r) fs with Some x => x | None => VNil end).
+
+Lemma back_fields_mask : forall ex rows fs,
+  map fst fs = map r_dst rows -> NoDup (map r_dst rows) ->
+  map (back_field ex fs) rows = mask_excl ex rows fs.
+Proof.
+  intros ex rows fs Hnames Hnd.
+  assert (Hnd' : NoDup (map fst fs)) by (rewrite Hnames; exact Hnd).
+  assert (G : forall rows' fs', map fst fs' = map r_dst rows' ->
+              (forall r, In r rows' -> find_row (r_dst r) rows = Some r) ->
+              (forall kv, In kv fs' -> lookup (fst kv) fs = Some (snd kv)) ->
+              map (back_field ex fs) rows' =
+              map (fun kv => if mem (fst kv) ex
+                             then (fst kv, match find_row (fst kv) rows with Some r => r_zero r | None => snd kv end)
+                             else kv) fs').
+  { induction rows' as [|r rows' IH]; destruct fs' as [|[k x] fs']; simpl; intros Hn Hr Hf; try discriminate; [reflexivity|].
+    inversion Hn as [[Hk Hn']]. subst k. f_equal.
+    - unfold back_field. destruct (mem (r_dst r) ex).
+      + rewrite (Hr r (or_introl eq_refl)). reflexivity.
+      + pose proof (Hf (r_dst r, x) (or_introl eq_refl)) as Hl. simpl in Hl. rewrite Hl. reflexivity.
+    - apply IH; [exact Hn'| |]; intros; [apply Hr|apply Hf]; right; assumption. }
+  unfold mask_excl. apply G; [exact Hnames| |].
+  - intros r Hin. apply find_row_nodup; assumption.
+  - intros [k x] Hin. simpl. apply lookup_nodup; assumption.
+Qed.
+
+Lemma rec_roundtrip : forall E n t fs nl nl',
+  lookup n (e_tables E) = Some t ->
+  fields_ok E n t = true ->
+  Forall (fun kv => RT E (snd kv)) fs ->
+  dom_b E (CRec true nl n) (CRec false nl' n) (VR fs) = true ->
+  exists w, apply E (CRec true nl n) (VR fs) = Ok w /\
+            apply E (CRec false nl' n) w = Ok (VR (mask_excl (excl_of E n) (t_from t) fs)).
+Proof.
+  intros E n t fs nl nl' Ht Hok IH Hdom.
+  unfold fields_ok in Hok. repeat (apply andb_true_iff in Hok; destruct Hok as [Hok ?]).
+  rename Hok into Hnd_from. rename H into Hto. rename H0 into Hfrom. rename H1 into Hnd_to.
+  apply nodup_str_NoDup in Hnd_from. apply nodup_str_NoDup in Hnd_to.
+  simpl in Hdom. rewrite Ht in Hdom. apply andb_true_iff in Hdom. destruct Hdom as [Hnames Hdom].
+  apply list_eqb_str_eq in Hnames.
+  (* facts about one from-row that is not excluded *)
+  assert (Frow : forall r, In r (t_from t) -> mem (r_dst r) (excl_of E n) = false ->
+            exists p cf tr ct x,
+              r_src r = Some (p, cf) /\ find_row p (t_to t) = Some tr /\ r_src tr = Some (r_dst r, ct) /\
+              inv_ok E ct cf = true /\ lookup (r_dst r) fs = Some x /\ dom_b E ct cf x = true).
+  { intros r Hin Hex.
+    pose proof (forallb_In _ _ r Hfrom Hin) as Hr. unfold from_row_ok in Hr. rewrite Hex in Hr.
+    pose proof (forallb_In _ _ r Hdom Hin) as Hd. simpl in Hd. rewrite Hex in Hd. simpl in Hd.
+    destruct (r_src r) as [[p cf]|]; [|discriminate].
+    destruct (find_row p (t_to t)) as [tr|] eqn:Hf; [|discriminate].
+    destruct (r_src tr) as [[g ct]|] eqn:Hs; [|discriminate].
+    apply andb_true_iff in Hr. destruct Hr as [Hg Hinv]. apply String.eqb_eq in Hg. subst g.
+    rewrite lookup_with_spec in Hd.
+    destruct (lookup (r_dst r) fs) as [x|] eqn:Hl; [|discriminate].
+    exists p, cf, tr, ct, x. repeat split; try assumption; reflexivity. }
+  (* to direction *)
+  assert (A : exists fs', omap (row_apply E fs) (t_to t) = Ok fs' /\ Forall2 (Rto E fs) (t_to t) fs').
+  { apply omap_ok_ex. intros tr Hin. unfold row_apply, Rto.
+    destruct (r_src tr) as [[g ct]|] eqn:Hs.
+    - pose proof (forallb_In _ _ tr Hto Hin) as Htr. unfold to_row_ok in Htr. rewrite Hs in Htr.
+      destruct (find_row g (t_from t)) as [r|] eqn:Hfr; [|discriminate].
+      destruct (find_row_In _ _ _ Hfr) as [Hrin Hrg].
+      destruct (r_src r) as [[p cf0]|] eqn:Hrs; [|discriminate].
+      apply String.eqb_eq in Htr. subst p.
+      assert (Hex : mem (r_dst r) (excl_of E n) = false).
+      { destruct (mem (r_dst r) (excl_of E n)) eqn:Hm; [|reflexivity].
+        pose proof (forallb_In _ _ r Hfrom Hrin) as Hr. unfold from_row_ok in Hr. rewrite Hm, Hrs in Hr. discriminate. }
+      destruct (Frow r Hrin Hex) as [p [cf [tr' [ct' [x [E1 [E2 [E3 [E4 [E5 E6]]]]]]]]]].
+      rewrite Hrs in E1. inversion E1. subst p cf.
+      rewrite (find_row_nodup _ _ Hnd_to Hin) in E2. inversion E2. subst tr'.
+      rewrite Hs in E3. inversion E3. subst g ct'.
+      assert (Hx : RT E x).
+      { rewrite Forall_forall in IH. apply (IH (r_dst r, x)). apply lookup_In. exact E5. }
+      destruct (Hx ct cf0 E4 E6) as [w [Hw _]].
+      exists (r_dst tr, w). rewrite lookup_with_spec, E5, Hw. simpl. split; [reflexivity|].
+      split; [reflexivity|]. exists x. split; [first [exact E5|reflexivity]|exact Hw].
+    - exists (r_dst tr, r_zero tr). split; [reflexivity|]. split; [reflexivity|exact I]. }
+  destruct A as [fs' [Hfs' HR]].
+  exists (VR fs'). split.
+  - rewrite apply_rec_VR. unfold rows_of. rewrite Ht. rewrite Hfs'. reflexivity.
+  - rewrite apply_rec_VR. unfold rows_of. rewrite Ht.
+    rewrite (omap_ok_map _ (back_field (excl_of E n) fs)).
+    + simpl. rewrite back_fields_mask; [reflexivity|exact Hnames|exact Hnd_from].
+    + intros r Hin. unfold row_apply, back_field.
+      destruct (mem (r_dst r) (excl_of E n)) eqn:Hex.
+      * pose proof (forallb_In _ _ r Hfrom Hin) as Hr. unfold from_row_ok in Hr. rewrite Hex in Hr.
+        destruct (r_src r); [discriminate|reflexivity].
+      * destruct (Frow r Hin Hex) as [p [cf [tr [ct [x [E1 [E2 [E3 [E4 [E5 E6]]]]]]]]]].
+        rewrite E1, lookup_with_spec.
+        destruct (Forall2_find_lookup _ _ _ _ _ _ HR E2) as [y [Hy [_ Hsrc]]].
+        rewrite Hy. rewrite E3 in Hsrc. destruct Hsrc as [x' [Hx' Hct]]. rewrite E5 in Hx'. inversion Hx'. subst x'.
+        simpl in Hct.
+        assert (Hx : RT E x).
+        { rewrite Forall_forall in IH. apply (IH (r_dst r, x)). apply lookup_In. exact E5. }
+        destruct (Hx ct cf E4 E6) as [w [Hw Hb]]. rewrite Hw in Hct. inversion Hct. subst y.
+        rewrite Hb. simpl. rewrite E5. reflexivity.
+Qed.
+
+(* ---------------------------------------------------------------- the generic theorem *)
+
+Lemma mask_excl_nil : forall rows fs, mask_excl [] rows fs = fs.
+Proof.
+  intros rows fs. unfold mask_excl. induction fs as [|kv r IH]; [reflexivity|]. simpl. f_equal. exact IH.
+Qed.
+
+Lemma omap_back : forall {A B} (f : B -> outcome A) l ys,
+  Forall2 (fun x y => f y = Ok x) l ys -> omap f ys = Ok l.
+Proof.
+  intros A B f l ys H. induction H as [|x y l' ys' Hxy _ IH]; [reflexivity|].
+  rewrite omap_cons, Hxy. simpl. rewrite IH. reflexivity.
+Qed.
+
+Lemma env_ok_table : forall E n t, env_ok E = true -> lookup n (e_tables E) = Some t -> fields_ok E n t = true.
+Proof.
+  intros E n t H Hl. unfold env_ok in H. apply andb_true_iff in H. destruct H as [H _].
+  apply andb_true_iff in H. destruct H as [H _].
+  apply (forallb_In _ _ (n, t) H). apply lookup_In. exact Hl.
+Qed.
+
+Lemma env_ok_qkind : forall E k pc, env_ok E = true -> lookup k (e_qto E) = Some pc -> qkind_ok E k = true.
+Proof.
+  intros E k pc H Hl. unfold env_ok in H. apply andb_true_iff in H. destruct H as [_ H].
+  apply (forallb_In _ _ (k, pc) H). apply lookup_In. exact Hl.
+Qed.
+
+Lemma apply_list : forall E c l, apply E (CList c) (VL l) = (do l' <- omap (fun x => apply E c x) l; Ok (VL l')).
+Proof. reflexivity. Qed.
+Lemma apply_mapv : forall E c kvs,
+  apply E (CMapV c) (VM kvs) =
+  (do kvs' <- omap (fun kv => do y <- apply E c (snd kv); Ok (fst kv, y)) kvs; Ok (VM kvs')).
+Proof. reflexivity. Qed.
+
+Ltac pre ct cf Hinv Hdom :=
+  destruct ct as [| |a1 b1| | | | |ps1 d1|c1|c1| | |[|] nl1 n1|f1|f1| | |s1|s1| | |ps1|ps1|w1];
+  destruct cf as [| |a2 b2| | | | |ps2 d2|c2|c2| | |[|] nl2 n2|f2|f2| | |s2|s2| | |ps2|ps2|w2];
+  simpl in Hinv; try discriminate; simpl in Hdom; try discriminate;
+  try (match type of Hdom with context [lookup ?n (e_tables ?E)] =>
+         destruct (lookup n (e_tables E)) eqn:Ht; simpl in Hdom; try discriminate end).
+
+Theorem roundtrip_all : forall E, env_ok E = true -> forall v, RT E v.
+Proof.
+  intros E HE. induction v using val_ind2; intros ct cf Hinv Hdom.
+  - (* VB *) pre ct cf Hinv Hdom. exists (VB b). split; reflexivity.
+  - (* VZ *) pre ct cf Hinv Hdom.
+    + exists (VZ z). split; reflexivity.
+    + apply andb_true_iff in Hinv. destruct Hinv as [Hinv Hsub]. apply andb_true_iff in Hinv. destruct Hinv as [Ha Hb].
+      apply ity_eqb_eq in Ha. apply ity_eqb_eq in Hb. subst.
+      exists (VZ z). simpl. rewrite (wrap_id _ z (ity_sub_in _ _ _ Hsub Hdom)). split; [reflexivity|].
+      rewrite (wrap_id _ z Hdom). reflexivity.
+    + exists (dur_to z). split; [reflexivity|]. simpl. rewrite (dur_roundtrip z Hdom). reflexivity.
+    + exists (VZ (enum_map ps1 d1 z)). split; [reflexivity|]. simpl.
+      rewrite (enum_roundtrip _ _ _ _ _ Hinv Hdom). reflexivity.
+    + exists (VR [("Flags"%string, VL (flags_to ps1 z))]). split; [reflexivity|]. simpl.
+      rewrite (flags_roundtrip _ _ _ Hinv Hdom). reflexivity.
+  - (* VS *) pre ct cf Hinv Hdom.
+    + exists (VS s). split; reflexivity.
+    + exists (VS s). split; reflexivity.
+    + exists (VS s). split; [reflexivity|]. simpl.
+      destruct (e_re_norm E s) as [s'|]; [|discriminate].
+      destruct s1, s2; simpl in Hinv; try discriminate; [|reflexivity].
+      assert (s' = s) as ->; [|reflexivity].
+      clear -Hdom. revert s Hdom. induction s' as [|a s' IH]; destruct s as [|b s]; simpl; intros H; try discriminate; [reflexivity|].
+      apply andb_true_iff in H. destruct H as [H1 H2]. apply N.eqb_eq in H1. subst. f_equal. apply IH. exact H2.
+  - (* VTime *) pre ct cf Hinv Hdom.
+    + exists (VTime s n). split; reflexivity.
+    + exists (time_to s n). split; [reflexivity|]. simpl. rewrite (time_roundtrip s n Hdom). reflexivity.
+  - (* VNil *) pre ct cf Hinv Hdom.
+    + exists VNil. split; reflexivity.
+    + apply andb_true_iff in Hinv. destruct Hinv as [Hinv _]. apply andb_true_iff in Hinv. destruct Hinv as [Hn _].
+      apply String.eqb_eq in Hn. subst n2.
+      apply andb_true_iff in Hdom. destruct Hdom as [-> ->].
+      exists VNil. split; apply (apply_rec_VNil_nilable _ _ _ _ Ht).
+  - (* VL *) pre ct cf Hinv Hdom.
+    + exists (VL l). split; reflexivity.
+    + (* CList *)
+      destruct (omap_ok_ex (fun x => apply E c1 x) (fun x y => apply E c2 y = Ok x) l) as [ys [Hys HR]].
+      { intros x Hin. rewrite Forall_forall in H. apply (H x Hin c1 c2 Hinv). apply (forallb_In _ _ x Hdom Hin). }
+      exists (VL ys). split.
+      * rewrite apply_list, Hys. reflexivity.
+      * rewrite apply_list, (omap_back (fun x => apply E c2 x) _ _ HR). reflexivity.
+    + exists (VL l). split; [reflexivity|]. simpl. rewrite (set_of_list_sorted l Hdom). reflexivity.
+    + exists (VL l). split; reflexivity.
+  - (* VM *) pre ct cf Hinv Hdom.
+    + exists (VM kvs). split; reflexivity.
+    + destruct (omap_ok_ex (fun kv => do y <- apply E c1 (snd kv); Ok (fst kv, y))
+                  (fun kv kv' => (do y <- apply E c2 (snd kv'); Ok (fst kv', y)) = Ok kv) kvs) as [ys [Hys HR]].
+      { intros [k x] Hin. rewrite Forall_forall in H.
+        destruct (H (k, x) Hin c1 c2 Hinv) as [w [Hw Hb]]. { apply (forallb_In _ _ (k, x) Hdom Hin). }
+        exists (k, w). simpl in *. rewrite Hw, Hb. split; reflexivity. }
+      exists (VM ys). split.
+      * rewrite apply_mapv, Hys. reflexivity.
+      * rewrite apply_mapv, (omap_back _ _ _ HR). reflexivity.
+  - (* VR *) pre ct cf Hinv Hdom.
+    + exists (VR fs). split; reflexivity.
+    + (* CRec *)
+      apply andb_true_iff in Hinv. destruct Hinv as [Hinv Hex]. apply andb_true_iff in Hinv. destruct Hinv as [Hn _].
+      apply String.eqb_eq in Hn. subst n2.
+      destruct (rec_roundtrip E n1 t fs nl1 nl2 Ht (env_ok_table _ _ _ HE Ht) H) as [w [Hw Hb]].
+      { simpl. rewrite Ht. exact Hdom. }
+      destruct (excl_of E n1) eqn:Hexn; [|discriminate].
+      exists w. split; [exact Hw|]. rewrite Hb, mask_excl_nil. reflexivity.
+    + (* CProj *)
+      destruct fs as [|[g x] [|? ?]]; try discriminate.
+      apply String.eqb_eq in Hinv. apply String.eqb_eq in Hdom. subst.
+      exists x. simpl. rewrite String.eqb_refl. split; [reflexivity|]. destruct x; reflexivity.
+  - (* VQ *) pre ct cf Hinv Hdom.
+    + exists (VQ k v). split; reflexivity.
+    + destruct (lookup k (e_qto E)) as [[pk ct']|] eqn:Hk; [|discriminate].
+      pose proof (env_ok_qkind _ _ _ HE Hk) as Hq. unfold qkind_ok in Hq. rewrite Hk in Hq.
+      destruct (lookup pk (e_qfrom E)) as [[k' cf']|] eqn:Hpk; [|discriminate].
+      apply andb_true_iff in Hq. destruct Hq as [Hkk Hinv']. apply String.eqb_eq in Hkk. subst k'.
+      destruct (IHv ct' cf' Hinv' Hdom) as [w [Hw Hb]].
+      exists (VQ pk w). simpl. rewrite Hk, Hw. simpl. split; [reflexivity|]. rewrite Hpk, Hb. reflexivity.
+Qed.
+
+(* ---------------------------------------------------------------- no request panics *)
+
+Definition np (o : outcome val) : Prop := forall w, o <> Panic w.
+
+Lemma omap_np : forall {A B} (f : A -> outcome B) l,
+  (forall x, In x l -> forall w, f x <> Panic w) -> forall w, omap f l <> Panic w.
+Proof.
+  intros A B f l. induction l as [|x r IH]; intros H w; [discriminate|].
+  rewrite omap_cons. destruct (f x) as [y|e|w'] eqn:Hx; simpl.
+  - destruct (omap f r) as [ys|e|w'] eqn:Hr; simpl; try discriminate.
+    intros Heq. inversion Heq. subst. apply (IH (fun z Hz => H z (or_intror Hz)) w). reflexivity.
+  - discriminate.
+  - exfalso. apply (H x (or_introl eq_refl) w'). exact Hx.
+Qed.
+
+Lemma from_safe_parts : forall E, from_safe E = true ->
+  e_qfrom_nil_safe E = true /\ e_qfrom_default_panics E = false /\
+  forallb (fun nt => forallb (row_safe E) (t_from (snd nt))) (e_tables E) = true /\
+  forallb (fun kc => safe_payload_conv E (snd (snd kc))) (e_qfrom E) = true /\
+  lookup "" (e_qfrom E) = None /\
+  (exists t, lookup "zoekt.SearchOptions" (e_tables E) = Some t) /\
+  forallb (fun nt => t_from_nilsafe (snd nt)) (e_tables E) = true.
+Proof.
+  intros E H. unfold from_safe in H. repeat rewrite andb_true_iff in H.
+  destruct H as [[[[[[H1 H2] H3] H4] H5] H6] H7].
+  repeat split; try assumption.
+  - destruct (e_qfrom_default_panics E); [discriminate|reflexivity].
+  - destruct (lookup "" (e_qfrom E)); [discriminate|reflexivity].
+  - destruct (lookup "zoekt.SearchOptions" (e_tables E)) as [t|]; [exists t; reflexivity|discriminate].
+Qed.
+
+Lemma from_safe_rows : forall E n t r, from_safe E = true -> lookup n (e_tables E) = Some t ->
+  In r (t_from t) -> row_safe E r = true.
+Proof.
+  intros E n t r H Hl Hin. destruct (from_safe_parts E H) as [_ [_ [H3 _]]].
+  apply (forallb_In _ _ r (forallb_In _ _ (n, t) H3 (lookup_In _ _ _ Hl)) Hin).
+Qed.
+
+Lemma obind_np : forall {A B} (x : outcome A) (f : A -> outcome B),
+  (forall w, x <> Panic w) -> (forall a w, f a <> Panic w) -> forall w, obind x f <> Panic w.
+Proof.
+  intros A B x f Hx Hf w. destruct x as [a|e|w']; simpl; [apply Hf|discriminate|].
+  exfalso. apply (Hx w'). reflexivity.
+Qed.
+
+Lemma flags_from_np : forall ps l w, flags_from ps l <> Panic w.
+Proof.
+  intros ps l. induction l as [|x r IH]; intros w; simpl; [discriminate|].
+  destruct x; try discriminate. destruct (flags_from ps r) as [a|e|w'] eqn:Hr; simpl; try discriminate.
+  exfalso. apply (IH w'). reflexivity.
+Qed.
+
+Ltac shallow :=
+  simpl; try discriminate;
+  repeat match goal with
+  | |- context [match ?x with _ => _ end] => is_var x; destruct x; simpl; try discriminate
+  | |- context [match e_re_norm ?E ?s with _ => _ end] => destruct (e_re_norm E s); simpl; try discriminate
+  | |- context [match rows_of ?E ?t ?n with _ => _ end] => destruct (rows_of E t n); simpl; try discriminate
+  | |- context [if String.eqb ?a ?b then _ else _] => destruct (String.eqb a b); simpl; try discriminate
+  end.
+
+Theorem from_no_panic : forall E, from_safe E = true ->
+  forall v, wire_wf v = true -> forall c, safe_payload_conv E c = true ->
+  (v <> VNil \/ safe_conv E c = true) -> forall w, apply E c v <> Panic w.
+Proof.
+  intros E HE. destruct (from_safe_parts E HE) as [Hns [Hdp [_ [Hq [Hq0 [_ _]]]]]].
+  induction v using val_ind2; intros Hwf c Hc Hnil w;
+    destruct c as [| |a1 b1| | | | |ps1 d1|c1|c1| | |[|] nl1 n1|f1|f1| | |s1|s1| | |ps1|ps1|w1];
+    simpl in Hc; try discriminate.
+  (* everything whose result is decided by the outer shape of the value *)
+  all: try solve [shallow].
+  - (* VNil, CRec false *)
+    destruct Hnil as [Hnil|Hnil]; [exfalso; apply Hnil; reflexivity|]. simpl in Hnil. simpl. unfold rows_of.
+    destruct (lookup n1 (e_tables E)) as [t|]; [|discriminate]. rewrite Hnil. destruct nl1; discriminate.
+  - (* VNil, CQFrom *) simpl. rewrite Hns, Hdp. discriminate.
+  - (* VNil, CFlagsFrom *)
+    destruct Hnil as [Hnil|Hnil]; [exfalso; apply Hnil; reflexivity|discriminate].
+  - (* VL, CList *)
+    rewrite apply_list. apply obind_np; [|intros a w'; discriminate].
+    apply omap_np. intros x Hin. rewrite Forall_forall in H. simpl in Hwf.
+    assert (Hs : safe_conv E c1 = true) by (unfold safe_payload_conv in Hc; simpl in Hc; rewrite orb_false_r in Hc; exact Hc).
+    apply (H x Hin (forallb_In _ _ x Hwf Hin) c1).
+    + unfold safe_payload_conv. rewrite Hs. reflexivity.
+    + right. exact Hs.
+  - (* VM, CMapV *)
+    rewrite apply_mapv. apply obind_np; [|intros a w'; discriminate].
+    apply omap_np. intros [k x] Hin. rewrite Forall_forall in H. simpl in Hwf.
+    apply obind_np; [|intros a w'; discriminate].
+    assert (Hs : safe_conv E c1 = true) by (unfold safe_payload_conv in Hc; simpl in Hc; rewrite orb_false_r in Hc; exact Hc).
+    apply (H (k, x) Hin (forallb_In _ _ (k, x) Hwf Hin) c1).
+    + unfold safe_payload_conv. rewrite Hs. reflexivity.
+    + right. exact Hs.
+  - (* VR, CRec false *)
+    rewrite apply_rec_VR. unfold rows_of. destruct (lookup n1 (e_tables E)) as [t|] eqn:Ht; [|discriminate].
+    apply obind_np; [|intros a w'; discriminate].
+    apply omap_np. intros r Hin. unfold row_apply.
+    pose proof (from_safe_rows E n1 t r HE Ht Hin) as Hr. unfold row_safe in Hr.
+    destruct (r_src r) as [[g c']|]; [|intros w'; discriminate].
+    apply obind_np; [|intros a w'; discriminate].
+    rewrite lookup_with_spec. destruct (lookup g fs) as [x|] eqn:Hl; [|intros w'; discriminate].
+    rewrite Forall_forall in H. simpl in Hwf.
+    apply (H (g, x) (lookup_In _ _ _ Hl) (forallb_In _ _ (g, x) Hwf (lookup_In _ _ _ Hl)) c').
+    + unfold safe_payload_conv. rewrite Hr. reflexivity.
+    + right. exact Hr.
+  - (* VR, CFlagsFrom *)
+    simpl. destruct fs as [|[g x] fs']; [discriminate|]. destruct x; destruct fs'; try discriminate.
+    apply obind_np; [apply flags_from_np|intros a w'; discriminate].
+  - (* VQ, CQFrom *)
+    simpl. destruct (lookup k (e_qfrom E)) as [[gk c']|] eqn:Hk; [|rewrite Hdp; discriminate].
+    apply obind_np; [|intros a w'; discriminate].
+    simpl in Hwf. apply andb_true_iff in Hwf. destruct Hwf as [Hk0 Hwf].
+    apply IHv; [exact Hwf| |].
+    + apply (forallb_In _ _ (k, (gk, c')) Hq (lookup_In _ _ _ Hk)).
+    + left. intros ->. apply orb_true_iff in Hk0. destruct Hk0 as [Hk0|Hk0]; [|discriminate].
+      apply String.eqb_eq in Hk0. subst k. rewrite Hq0 in Hk. discriminate.
+Qed.
+
+(* ---------------------------------------------------------------- handlers *)
+
+Lemma wire_wf_getf : forall f v, wire_wf v = true -> wire_wf (getf f v) = true.
+Proof.
+  intros f v H. destruct v; try reflexivity. simpl in *.
+  destruct (lookup f fs) as [x|] eqn:Hl; [|reflexivity].
+  apply (forallb_In _ _ (f, x) H (lookup_In _ _ _ Hl)).
+Qed.
+
+Lemma safe_conv_rec : forall E nl n, from_safe E = true -> safe_conv E (CRec false nl n) = true.
+Proof.
+  intros E nl n H. destruct (from_safe_parts E H) as [_ [_ [_ [_ [_ [_ H7]]]]]]. simpl.
+  destruct (lookup n (e_tables E)) as [t|] eqn:Hl; [|reflexivity].
+  apply (forallb_In _ _ (n, t) H7 (lookup_In _ _ _ Hl)).
+Qed.
+
+Section HandlersTotal.
+  Variable E : env.
+  Variable search : val -> val -> outcome val.
+  Variable list : val -> val -> outcome val.
+  Hypothesis HE : from_safe E = true.
+  (** the searcher behind the server does not panic when it is given options *)
+  Hypothesis search_np : forall q o w, o <> VNil -> search q o <> Panic w.
+  Hypothesis list_np : forall q o w, list q o <> Panic w.
+
+  Lemma decode_query_np : forall q, wire_wf q = true -> forall w, decode_query E q <> Panic w.
+  Proof.
+    intros q Hq w. unfold decode_query.
+    pose proof (from_no_panic E HE q Hq CQFrom eq_refl (or_intror eq_refl)) as H.
+    destruct (apply E CQFrom q) as [a|e|w'] eqn:Ha; try discriminate. exfalso. apply (H w'). reflexivity.
+  Qed.
+
+  Lemma search_core_np : forall request, wire_wf request = true ->
+    forall w, search_core E search true request <> Panic w.
+  Proof.
+    intros request Hwf. unfold search_core.
+    apply obind_np; [apply decode_query_np; apply wire_wf_getf; exact Hwf|].
+    intros q. apply obind_np.
+    - apply (from_no_panic E HE _ (wire_wf_getf _ _ Hwf)).
+      + unfold safe_payload_conv. rewrite (safe_conv_rec E _ _ HE). reflexivity.
+      + right. apply (safe_conv_rec E _ _ HE).
+    - intros opts w. unfold call_search. simpl andb.
+      destruct (is_nil opts) eqn:Hn.
+      + unfold zero_opts, rows_of.
+        destruct (from_safe_parts E HE) as [_ [_ [_ [_ [_ [[t Ht] _]]]]]]. rewrite Ht. simpl.
+        apply search_np. discriminate.
+      + rewrite Hn. apply search_np. intros ->. discriminate.
+  Qed.
+
+  Theorem handlers_total : forall h req, wire_wf req = true ->
+    forall w, handle E search list true h req <> Panic w.
+  Proof.
+    intros h req Hwf w. unfold handle.
+    destruct h as [|[p|p|]].
+    - apply search_core_np. exact Hwf.
+    - unfold handle_list. revert w.
+      apply obind_np; [apply decode_query_np; apply wire_wf_getf; exact Hwf|].
+      intros q. apply obind_np; [|intros o w; apply list_np].
+      apply (from_no_panic E HE _ (wire_wf_getf _ _ Hwf)).
+      + unfold safe_payload_conv. rewrite (safe_conv_rec E _ _ HE). reflexivity.
+      + right. apply (safe_conv_rec E _ _ HE).
+    - unfold handle_list. revert w.
+      apply obind_np; [apply decode_query_np; apply wire_wf_getf; exact Hwf|].
+      intros q. apply obind_np; [|intros o w; apply list_np].
+      apply (from_no_panic E HE _ (wire_wf_getf _ _ Hwf)).
+      + unfold safe_payload_conv. rewrite (safe_conv_rec E _ _ HE). reflexivity.
+      + right. apply (safe_conv_rec E _ _ HE).
+    - unfold handle_stream_search. apply search_core_np. apply wire_wf_getf. exact Hwf.
+  Qed.
+End HandlersTotal.
+
+(** the record-level corollary with named exclusions *)
+Theorem record_roundtrip : forall E, env_ok E = true ->
+  forall n t fs nl nl', lookup n (e_tables E) = Some t ->
+  dom_b E (CRec true nl n) (CRec false nl' n) (VR fs) = true ->
+  exists w, apply E (CRec true nl n) (VR fs) = Ok w /\
+            apply E (CRec false nl' n) w = Ok (VR (mask_excl (excl_of E n) (t_from t) fs)).
+Proof.
+  intros E HE n t fs nl nl' Ht Hdom.
+  apply (rec_roundtrip E n t fs nl nl' Ht (env_ok_table _ _ _ HE Ht)); [|exact Hdom].
+  apply Forall_forall. intros kv _. apply roundtrip_all. exact HE.
+Qed.
